@@ -7,6 +7,7 @@ cd "$(dirname "$0")/.."
 ROOT=$(pwd)
 REPO=${VP_RUN_REPO:-${VERIF_REPO:-/repo}}
 export VERIF_REPO=$REPO
+[ "$(cd $REPO && pwd -P)" = "/repo" ] && { echo "refusing to patch /repo itself: start through vp run --with-repo or set VERIF_REPO to a scratch worktree"; exit 2; }
 [ -x bin/harness ] && [ -x bin/model_runner ] || bin/setup >/dev/null 2>&1 || { echo "setup failed"; exit 2; }
 D=${SEED_DIR:-seeded}; IDS="$*"; [ -n "$IDS" ] || IDS=$(ls $D | grep -v "\.md$\|\.log$")
 CHECKS=$(python3 -c "import json;print(' '.join(c['property_id'] for c in json.load(open('MANIFEST.json'))['checks']))")
